@@ -307,6 +307,22 @@ PROBES = {
                           "scalar type MyS extending str;"],
     'is-typeof-other': ["type T { property a -> str; property c := .a is typeof U.p; };",
                         "type U { property p -> str; };"],
+    'overloaded-lprop': ["type C extending P0 { overloaded link l -> T { overloaded property p -> str "
+                         "{ annotation title := 'x'; }; }; };", "type P0 { link l -> T { property p -> str; }; };", "type T;"],
+    'inherited-clink-twice': ["type C extending P0 { property z := (.comp.a, .comp.b); };",
+                              "type P0 { link friend -> T; link comp := .friend; };",
+                              "type T { property a -> str; property b -> str; };"],
+    'own-noninferable-twice': ["type P0 { link friend -> T; link comp := assert_exists(.friend); "
+                               "property z := (.comp.a, .comp.b); };", "type T { property a -> str; property b -> str; };"],
+    'overloaded-link-extending-abslink': ["type C extending P0 { overloaded link l extending friendship -> T; "
+                                          "property s := .l@strength; };", "type P0 { link l -> T; };", "type T;",
+                                          "abstract link friendship { property strength -> float64; };"],
+    'typed-using-computed': ["type C { link t -> T; property z -> str { using (.t.a); }; };",
+                             "type T { property a -> str; };"],
+    'nested-shape-alias': ["alias AC := C { t: { title } };", "type C { link t -> T; };",
+                           "type T { property title -> str; };"],
+    'alias-path-in-function': ["function f() -> int64 using (count(AP.friend.a));", "alias AP := (select P0);",
+                               "type P0 { link friend -> T; };", "type T { property a -> str; };"],
     # -- order independent on the unchanged tree ---------------------------------------
     'abslink-lprop-direct': ["type B { link l extending al -> U; property c := .l@alp; };", "type U;",
                              "abstract link al { property alp -> str; };"],
@@ -430,6 +446,11 @@ PROBES = {
                            "type W extending V;", "type X extending V;"],
     'free-object': ["type T { property c := (select { a := count(U), b := <MyS>'x' }).b; };", "type U;",
                     "scalar type MyS extending str;"],
+    'inherited-clink-two-exprs': ["type C extending P0 { property za := .comp.a; property zb := .comp.b; };",
+                                  "type P0 { link friend -> T; link comp := .friend; };",
+                                  "type T { property a -> str; property b -> str; };"],
+    'alias-shape-nested-path': ["alias AC := C { z := .t.title };", "type C { link t -> T; };",
+                                "type T { property title -> str; };"],
     # rejected documents: the rejection must not depend on the order either
     'duplicate-type': ["type A;", "type A { property p -> str; };", "type B extending A;"],
     'duplicate-pointer': ["type A { property p -> str; property p -> int64; };", "type B extending A;"],
@@ -791,6 +812,88 @@ def family_variants(doc, rng, budget):
     return out, {'module': full}
 
 
+# ------------------------------------------------- computed-link continuation families
+# A computed link whose target the tracer cannot infer (inherited by a subtype: the copy has no
+# target expression; or defined by a call / ?? / if-else), and TWO OR MORE sibling expressions
+# that continue the path past it (`.comp.a`, `.comp.b`).  Each of them must get its own weak
+# by-name dependencies: the recursion guard of `trace_Path` is per expression.  All orders of the
+# top-level entries / module blocks, each with the type bodies as written and reversed.
+CLINK_KINDS = ('inherited', 'inherited-2mod', 'inherited-backlink', 'own-assert', 'own-coalesce', 'own-ifelse',
+               'two-subtypes', 'alias-user', 'function-user')
+
+
+def _clink_universe(kind):
+    two = kind == 'inherited-2mod'
+    lib, app = ('lib', 'app') if two else ('default', 'default')
+    u = G.Universe(['default'] + (['app', 'lib'] if two else []))
+    T = G.TypeInfo(lib, 'T')
+    T.own['a'] = G.PtrInfo('a', 'prop', 'str')
+    T.own['b'] = G.PtrInfo('b', 'prop', 'str')
+    P = G.TypeInfo(lib, 'P')
+    P.own['friend'] = G.PtrInfo('friend', 'link', T)
+    friend = G.Path(None, [('p', 'friend')])
+    comp = G.PtrInfo('comp', 'link', T)
+    za = G.PtrInfo('za', 'prop', 'str')
+    zb = G.PtrInfo('zb', 'prop', 'str')
+    za.computed = G.Path(None, [('p', 'comp'), ('p', 'a')])
+    zb.computed = G.Path(None, [('p', 'comp'), ('p', 'b')])
+    u.types = [T, P]
+    if kind == 'inherited-backlink':
+        # T.comp := .<friend[is P]  (inferable on T, NOT on the subtype TS that inherits it)
+        P.own['a'] = G.PtrInfo('a', 'prop', 'str')      # pointers called a / b exist on P too
+        P.own['b'] = G.PtrInfo('b', 'prop', 'str')
+        comp = G.PtrInfo('comp', 'link', P, multi=True)
+        comp.computed = G.Path(None, [('b', 'friend', P)])
+        T.own['comp'] = comp
+        TS = G.TypeInfo(app, 'TS', bases=[T], rank=1)
+        TS.own['za'] = za
+        TS.own['zb'] = zb
+        u.types.append(TS)
+        return u
+    if kind == 'own-assert':
+        comp.computed = G.Call(None, 'assert_exists', [friend])
+    elif kind == 'own-coalesce':
+        P.own['friend2'] = G.PtrInfo('friend2', 'link', T)
+        comp.computed = G.Op('??', friend, G.Path(None, [('p', 'friend2')]))
+    elif kind == 'own-ifelse':
+        comp.computed = G.Cond(friend, friend)
+    else:
+        comp.computed = friend
+    P.own['comp'] = comp
+    if kind.startswith('own-'):
+        P.own['za'] = za
+        P.own['zb'] = zb
+        return u
+    C = G.TypeInfo(app, 'C', bases=[P], rank=1)
+    u.types.append(C)
+    C.own['za'] = za
+    if kind in ('inherited', 'inherited-2mod'):
+        C.own['zb'] = zb
+    elif kind == 'two-subtypes':
+        C2 = G.TypeInfo(app, 'C2', bases=[P], rank=1)
+        C2.own['zb'] = zb
+        u.types.append(C2)
+    elif kind == 'alias-user':
+        u.aliases.append(((app, 'AZ'), G.Shape(C, [('z', G.Path(None, [('p', 'comp'), ('p', 'b')]))])))
+    elif kind == 'function-user':
+        u.fns.append(G.FnInfo(app, 'fz', [('s', 'str')], 'str',
+                              G.Op('++', G.Raw('s'), G.Cast('str', G.Call(None, 'count', [G.Path(C, [('p', 'comp'), ('p', 'b')])]))), 0))
+    else:
+        raise AssertionError(kind)
+    return u
+
+
+def clink_family_doc(kind):
+    u = _clink_universe(kind)
+    b = G.Builder(u, random.Random(0), cg, cg_params)
+    by = {}
+    for n in b.nodes():
+        by.setdefault(n.mod, []).append(n)
+    doc = G.Doc([G.Block(m, m, by[m]) for m in sorted(by)], label=f'clink:{kind}')
+    doc.meta.update(size='family', cyclic=None, family=f'clink:{kind}', xmod=True, bodies='both')
+    return doc
+
+
 # ------------------------------------------------------------- alias-scope families
 # One declaration's body binds a name (FOR iterator / WITH alias / result alias / GROUP USING)
 # and a DIFFERENT declaration uses the same name as the leading name of a path: a function
@@ -1011,8 +1114,20 @@ def arrangement_variants(doc, rng, cap):
         step = (len(arrs) - 1) / max(1, cap - 1)
         arrs = [arrs[round(i * step)] for i in range(cap)] if cap > 1 else [arrs[-1]]
     out = []
+    both = doc.meta.get('bodies') == 'both'
+    if both:
+        # the identity arrangement with reversed bodies is a variant of its own
+        arrs = [list(doc.top)] + arrs
     for i, a in enumerate(arrs):
         d = G.copy_doc(G.Doc(a, doc.label, dict(doc.meta)))
+        if both:
+            if i > 0:
+                out.append((f'arrangement:{i}', 'module', d))
+            d2 = G.copy_doc(d)
+            for sbody in G.sites(d2, 'body'):
+                sbody.reverse()
+            out.append((f'arrangement:{i}:bodies-reversed', 'body', d2))
+            continue
         for sbody in G.sites(d, 'body'):
             rng.shuffle(sbody)
         out.append((f'arrangement:{i}', 'module', d))
@@ -1166,6 +1281,9 @@ def _run(ctx, pool, proved):
             full = binder.startswith('for') and user != 'alias-named'
             docs.append((alias_family_doc(binder, user), 720 if (full or not quick) else (24 if binder.startswith('for') else 5)))
             fam_expect[len(docs) - 1] = (f'alias:{binder}:{user}', 'ok')
+    for kind in CLINK_KINDS:
+        docs.append((clink_family_doc(kind), 5000))      # <= 24 arrangements x 2 body orders: all, always
+        fam_expect[len(docs) - 1] = (f'clink:{kind}', 'ok')
     for placement in XMOD_PLACEMENTS:
         for kind in XMOD_KINDS:
             if kind == 'mid-overload' and placement == 'nested':
@@ -1296,7 +1414,7 @@ def _run(ctx, pool, proved):
             fam_hist[flabel] = got
             if got != [expect]:
                 bad = next((x for x in vs if outcome_sig(x[4])[0] != expect))
-                ctx.fail(f'{flabel}:verdict' if flabel.startswith(('xmod:', 'alias:')) else f'weak:{flabel}:verdict',
+                ctx.fail(f'{flabel}:verdict' if flabel.startswith(('xmod:', 'alias:', 'clink:')) else f'weak:{flabel}:verdict',
                          f'family: expected {expect} in every declaration order, got {got} '
                          f'({sum(1 for x in vs if outcome_sig(x[4])[0] != expect)} of {len(vs)} orders differ)',
                          {'sdls': [bad[3]], 'errs': [bad[4]['err']], 'label': bad[1]})
@@ -1435,7 +1553,8 @@ def _run(ctx, pool, proved):
         'emitted_orders_compared': n_order_cmp,
         'delta_schemas_pairs': n_delta,
         'model_incomplete_documents': incomplete,
-        'weak_edge_families': {k: v for k, v in fam_hist.items() if not k.startswith(('xmod:', 'alias:'))},
+        'weak_edge_families': {k: v for k, v in fam_hist.items() if not k.startswith(('xmod:', 'alias:', 'clink:'))},
+        'computed_link_continuation_families': {k: v for k, v in fam_hist.items() if k.startswith('clink:')},
         'alias_scope_families': {k: v for k, v in fam_hist.items() if k.startswith('alias:')},
         'tracer_calls_leaving_residue': n_tracer,
         'cross_module_families': {k: v for k, v in fam_hist.items() if k.startswith('xmod:')},
